@@ -26,6 +26,7 @@ from easynetwork.clients.async_tcp import AsyncTCPNetworkClient
 from easynetwork.clients.tcp import TCPNetworkClient
 from easynetwork.lowlevel import constants as _en_constants
 from easynetwork.lowlevel.api_async.endpoints.stream import AsyncStreamEndpoint
+from easynetwork.lowlevel.api_async.transports.utils import aclose_forcefully
 from easynetwork.lowlevel.api_sync.endpoints.stream import StreamEndpoint
 from easynetwork.lowlevel.api_sync.transports.socket import SocketStreamTransport
 from easynetwork.protocol import StreamProtocol
@@ -34,7 +35,7 @@ from easynetwork.serializers.wrapper.compressor import BZ2CompressorSerializer
 
 from vsim.backend import SimAsyncIOBackend, sim_sockets
 from vsim.harness import CallFaults, Peer, draw_rate, swarm_selector, sync_engine
-from vsim.loop import loop_goes_idle, run_async
+from vsim.loop import loop_goes_idle, run_async, wait_until
 from vsim.runner import Harness
 from vsim.sock import Delivery, SimNet, SimSocket
 from vsim.world import Deadlock, HarnessError, StepCap, Violation, World
@@ -223,6 +224,23 @@ class _SendTap:
         self.last_written = 0
         self.spin_key: Callable[[], str] = lambda: "C04/spin"
         self.describe: Callable[[], str] = lambda: ""
+        self.family = ""
+        # per send_packet call (set by begin()): bytes the call may hand to the socket, virtual deadline
+        self.byte_budget: int | None = None
+        self.start_written = 0
+        self.deadline: float | None = None
+        self.timeout: float | None = None
+
+    def begin(self, sock: SimSocket, nbytes: int | None, timeout: float | None) -> None:
+        p = sock.tx_pipe
+        self.start_written = p.total_written if p is not None else 0
+        self.byte_budget = nbytes
+        self.timeout = timeout
+        self.deadline = None if timeout is None else self.world.now + timeout
+
+    def end(self) -> None:
+        self.byte_budget = None
+        self.deadline = None
 
     def __call__(self, sock: SimSocket, op: str):
         if op == "send":
@@ -234,6 +252,24 @@ class _SendTap:
             else:
                 self.idle += 1
             self.last_written = written
+            if self.byte_budget is not None and written - self.start_written > self.byte_budget:
+                budget, self.byte_budget = self.byte_budget, None
+                self.world.fail(
+                    Violation(
+                        "bytes-overrun",
+                        f"send_packet of a {budget}-byte packet has already handed {written - self.start_written} bytes to the socket and keeps sending; {self.describe()}",
+                        key=f"C04/{self.family}/bytes-overrun",
+                    )
+                )
+            if self.deadline is not None and self.world.now > self.deadline + 1e-9:
+                deadline, self.deadline = self.deadline, None
+                self.world.fail(
+                    Violation(
+                        "time-budget",
+                        f"send_packet(timeout={self.timeout}) is still issuing socket calls {self.world.now - deadline} virtual seconds after its deadline; {self.describe()}",
+                        key=f"C04/{self.family}/time-budget/still-running",
+                    )
+                )
             if self.idle > self.limit:
                 self.idle = 0
                 self.world.fail(
@@ -283,9 +319,16 @@ class _Link:
         else:
             capacity = 1000 + world.choose("link.cap.medium", 40) * 500
         if cap_kind != "big":
+            capacity = max(capacity, total_bytes // 300 + 1)  # bound the number of partial writes per run
             world.fault("capacity_small")
         self.capacity = capacity
-        self.lib, psock = net.socketpair(delivery_ab=Delivery.draw(world, "link"), capacity_ab=capacity)
+        # fragmentation of what the peer sees is irrelevant here (the peer only counts bytes); what matters is how long
+        # bytes stay in flight (they occupy link capacity), so only the delivery delay is drawn
+        dsel = world.choose("link.delay", 3)
+        if dsel:
+            world.fault("delay")
+        delivery = Delivery(0, 1, {0: (0,), 1: (1,), 2: tuple(range(0, 9))}[dsel])
+        self.lib, psock = net.socketpair(delivery_ab=delivery, capacity_ab=capacity)
         self.peer = Peer(world, psock)
         self.slow: _SlowReader | None = None
         modes = ["reads", "slow"] + (["never"] if allow_never else [])
@@ -307,7 +350,24 @@ class _Link:
             code = world.pick("fail.errno", (errno.ECONNRESET, errno.EPIPE))
             plan.fail_from["send"] = (n, code)
             self.fail_from = (n, code)
-        self.tap = _SendTap(world, plan)
+        self.plan = plan
+        self.plan_armed = [True]  # the "error from call n on" fault only strikes while armed
+        if self.fail_from is not None:
+            armed = self.plan_armed
+            code_ = self.fail_from[1]
+
+            def gated(sock: SimSocket, op: str, plan=plan, armed=armed):
+                if not armed[0] and op in plan.fail_from:
+                    saved = plan.fail_from.pop(op)
+                    try:
+                        return plan(sock, op)
+                    finally:
+                        plan.fail_from[op] = saved
+                return plan(sock, op)
+
+            self.tap = _SendTap(world, gated)
+        else:
+            self.tap = _SendTap(world, plan)
         self.lib.fault_plan = self.tap
         self.sel_opts = {"spurious_den": draw_rate(world, "sw.spurious", (0, 0, 0, 6))}
 
@@ -336,7 +396,7 @@ def _describe(wl: _Workload, extra: dict) -> str:
     return f"kind={wl.kind} chunk sizes per packet={wl.sizes} {extra}"
 
 
-def _check_bytes(family: str, wl: _Workload, done: int, failed: bool, link: _Link, extra: dict) -> None:
+def _check_bytes(family: str, wl: _Workload, done: int, failed: bool, link: _Link, extra: dict, suffix: str = "") -> None:
     got = bytes(link.peer.received)
     complete = b"".join(b"".join(c) for c in wl.expected[:done])
     if not failed:
@@ -345,7 +405,7 @@ def _check_bytes(family: str, wl: _Workload, done: int, failed: bool, link: _Lin
             raise Violation(
                 "bytes-equal",
                 f"after {done} successful send_packet the peer holds {len(got)} bytes, expected {len(complete)} (first difference at offset {where}); {_describe(wl, extra)}",
-                key=f"C04/{family}/bytes-equal",
+                key=f"C04/{family}/bytes-equal{suffix}",
             )
     else:
         full = complete + b"".join(wl.expected[done])
@@ -369,9 +429,10 @@ def _first_diff(a: bytes, b: bytes) -> int:
 
 
 def _spin_key(family: str, wl: _Workload, idx: int, iov: int) -> str:
+    """a stuck send is attributed to the known empty-chunk class iff one of the packets handed over so far has an
+    all-empty sendmsg window (the asyncio transport keeps the empty view of an *earlier* packet in its buffer)"""
     idx = min(idx, len(wl.sizes) - 1)
-    sizes = wl.sizes[idx]
-    if iov > 0 and window_trigger(sizes, iov) is not None:
+    if iov > 0 and any(window_trigger(sizes, iov) is not None for sizes in wl.sizes[: idx + 1]):
         return f"C04/{family}/spin/empty-chunk"
     return f"C04/{family}/spin/other"
 
@@ -388,6 +449,7 @@ _PASS_THROUGH = (Violation, HarnessError, Deadlock)
 
 # --------------------------------------------------------------------------------------------------- sync harnesses
 _TIMEOUTS = (None, 1000.0, 0.25, 0.0, 1.0 / 64, 2.0)
+_TIMEOUTS_FINITE = (0.25, 0.0, 1.0 / 64, 2.0)
 
 
 def _h_sync(world: World, family: str) -> None:
@@ -401,22 +463,24 @@ def _h_sync(world: World, family: str) -> None:
     wl = _Workload(world, iov, family, zero_chunks_known=False)
     via = world.pick("via", ("endpoint", "client"))
     retry_interval = world.pick("retry_interval", (math.inf, 1.0, 1.0 / 16))
-    timeouts = [world.pick("timeout", _TIMEOUTS) for _ in wl.packets]
-    finite = all(t is not None for t in timeouts)
-    link = _Link(world, wl.total(), allow_never=finite)
+    link = _Link(world, wl.total(), allow_never=True)
+    # a peer that never reads is only combined with finite (and short: bounded number of retry rounds) timeouts
+    timeouts = [world.pick("timeout", _TIMEOUTS_FINITE if link.peer_mode == "never" else _TIMEOUTS) for _ in wl.packets]
     extra = {"iov": iov_choice, "via": via, "timeouts": timeouts, "retry_interval": retry_interval, "capacity": link.capacity, "peer": link.peer_mode, "fail_from": link.fail_from}
     world.notes.update(family=family, kind=wl.kind, sizes=wl.sizes, **{k: str(v) for k, v in extra.items()})
     saved_iov = _en_constants.SC_IOV_MAX
     _en_constants.SC_IOV_MAX = iov  # type: ignore[misc]
     current = 0
     cur = [0]
+    sender: Any = None
+    link.tap.family = family
     link.tap.spin_key = lambda: _spin_key(family, wl, cur[0], iov)
     link.tap.describe = lambda: _describe(wl, extra)
     try:
         with sync_engine(world, **link.sel_opts) as make_selector:
             if via == "endpoint":
                 transport = SocketStreamTransport(link.lib, retry_interval, selector_factory=make_selector)
-                sender: Any = StreamEndpoint(transport, wl.protocol, max_recv_size=4096)
+                sender = StreamEndpoint(transport, wl.protocol, max_recv_size=4096)
             else:
                 sender = TCPNetworkClient(link.lib, wl.protocol, retry_interval=retry_interval)
             done = 0
@@ -425,6 +489,7 @@ def _h_sync(world: World, family: str) -> None:
                 cur[0] = current
                 t0 = world.now
                 pos = len(world.trace)
+                link.tap.begin(link.lib, sum(wl.sizes[current]), timeout)
                 try:
                     sender.send_packet(packet, timeout=timeout)
                     outcome = "ok"
@@ -440,6 +505,8 @@ def _h_sync(world: World, family: str) -> None:
                         f"send_packet raised {type(exc).__name__}: {exc} (only TimeoutError / ConnectionError are allowed); {_describe(wl, extra)}",
                         key=f"C04/{family}/send-raises/{type(exc).__name__}",
                     ) from None
+                finally:
+                    link.tap.end()
                 elapsed = world.now - t0
                 world.log("send_packet", family, current, outcome, elapsed)
                 if timeout is not None and elapsed > timeout + 1e-9:
@@ -464,9 +531,16 @@ def _h_sync(world: World, family: str) -> None:
                     break
             link.settle()
             _check_bytes(family, wl, done, failed, link, extra)
-            sender.close()
     finally:
         _en_constants.SC_IOV_MAX = saved_iov  # type: ignore[misc]
+        # always close explicitly: a destructor running at an arbitrary later point would write into the trace
+        try:
+            if sender is not None:
+                sender.close()
+            elif not link.lib.sim_closed:
+                link.lib.close()
+        except OSError:
+            pass
         _rekey_fatal(world, _spin_key(family, wl, current, iov))
 
 
@@ -474,15 +548,27 @@ def _h_sync(world: World, family: str) -> None:
 def _h_aio(world: World) -> None:
     family = "aio-adapter"
     iov = int(_aio_sel.SC_IOV_MAX)
+    avoid = bool(getattr(world, "avoid_known", True))
     wl = _Workload(world, iov, family, zero_chunks_known=True)
     via = world.pick("via", ("endpoint", "client"))
     link = _Link(world, wl.total(), allow_never=False)
     extra = {"via": via, "capacity": link.capacity, "peer": link.peer_mode, "fail_from": link.fail_from}
     world.notes.update(family=family, kind=wl.kind, sizes=wl.sizes, **{k: str(v) for k, v in extra.items()})
     backend = SimAsyncIOBackend(link.net)
-    state = {"current": 0, "done": 0, "failed": False}
+    state = {"current": 0, "done": 0, "failed": False, "early_return": False}
+    link.tap.family = family
     link.tap.spin_key = lambda: _spin_key(family, wl, state["current"], iov)
     link.tap.describe = lambda: _describe(wl, extra)
+    pipe = link.lib.tx_pipe
+    assert pipe is not None
+
+    def check_fatal() -> None:
+        if world.fatal is not None:
+            raise world.fatal
+
+    async def flushed(expected_written: int) -> bool:
+        """wait (bounded) until everything the completed sends produced has been accepted by the socket"""
+        return await wait_until(world, lambda: pipe.total_written >= expected_written or world.fatal is not None or link.lib.sim_closed, max_time=4000.0, step=0.25)
 
     async def main() -> None:
         loop = asyncio.get_running_loop()
@@ -493,70 +579,84 @@ def _h_aio(world: World) -> None:
         else:
             sender = AsyncTCPNetworkClient(link.lib, wl.protocol, backend=backend)
             await sender.wait_connected()
-        for i, packet in enumerate(wl.packets):
-            state["current"] = i
-            pos = len(world.trace)
-            try:
-                await sender.send_packet(packet)
-                outcome = "ok"
-            except ConnectionError:
-                outcome = "connection-error"
-            except _PASS_THROUGH:
-                raise
-            except asyncio.CancelledError:
-                raise
-            except BaseException as exc:
-                zero_chunks = not wl.sizes[i]
-                raise Violation(
-                    "send-raises",
-                    f"send_packet raised {type(exc).__name__}: {exc} (only a connection error is allowed); {_describe(wl, extra)}",
-                    key=f"C04/{family}/send-raises/{type(exc).__name__}" + ("/zero-chunks" if zero_chunks else ""),
-                ) from None
-            world.log("send_packet", family, i, outcome)
-            if world.fatal is not None:
-                raise world.fatal
-            zero = link.zero_sends_since(pos)
-            if zero > len(wl.sizes[i]) + 1:
-                raise Violation(
-                    "op-budget",
-                    f"send_packet #{i} issued {zero} zero-length socket sends for {len(wl.sizes[i])} chunks; {_describe(wl, extra)}",
-                    key=f"C04/{family}/op-budget",
-                )
-            if outcome == "ok":
+        try:
+            expected_written = 0
+            for i, packet in enumerate(wl.packets):
+                state["current"] = i
+                pos = len(world.trace)
+                link.plan_armed[0] = True
+                link.tap.begin(link.lib, None, None)
+                link.tap.start_written = 0
+                link.tap.byte_budget = sum(sum(ss) for ss in wl.sizes[: i + 1])  # cumulative: a flush may outlive its send
+                try:
+                    await sender.send_packet(packet)
+                    outcome = "ok"
+                except ConnectionError:
+                    outcome = "connection-error"
+                except _PASS_THROUGH:
+                    raise
+                except asyncio.CancelledError:
+                    raise
+                except BaseException as exc:
+                    zero_chunks = not wl.sizes[i]
+                    raise Violation(
+                        "send-raises",
+                        f"send_packet raised {type(exc).__name__}: {exc} (only a connection error is allowed); {_describe(wl, extra)}",
+                        key=f"C04/{family}/send-raises/{type(exc).__name__}" + ("/zero-chunks" if zero_chunks else ""),
+                    ) from None
+                world.log("send_packet", family, i, outcome)
+                check_fatal()
+                if outcome != "ok":
+                    world.probe("outcome." + outcome)
+                    state["failed"] = True
+                    break
                 state["done"] += 1
                 world.progress(1)
-            else:
-                world.probe("outcome." + outcome)
-                state["failed"] = True
-                break
-        # termination, part 2: nothing keeps the loop busy once the send has returned
-        idle = await loop_goes_idle(world, loop)
-        if world.fatal is not None:
-            raise world.fatal
-        if not idle:
-            raise Violation(
-                "spin",
-                f"the event loop does not go idle after send_packet returned; {_describe(wl, extra)}",
-                key=_spin_key(family, wl, state["current"], iov),
-            )
-        closer = loop.create_task(sender.aclose(), name="c04-closer")
-        done, _ = await asyncio.wait([closer], timeout=100.0)
-        if world.fatal is not None:
-            raise world.fatal
-        if not done:
-            closer.cancel()
-            raise Violation(
-                "aclose-completes",
-                f"aclose() after send_packet did not complete within 100 virtual seconds; {_describe(wl, extra)}",
-                key=f"C04/{family}/aclose-hangs" + ("/empty-chunk" if window_trigger(wl.sizes[state['current']], iov) is not None else ""),
-            )
-        closer.result()
+                expected_written += sum(wl.sizes[i])
+                if pipe.total_written < expected_written:
+                    # send_packet returned although the socket has not accepted all the bytes yet (C20 territory);
+                    # a connection error striking now loses bytes of a send that reported success.
+                    world.probe("returned_before_flush")
+                    state["early_return"] = True
+                    if avoid:
+                        link.plan_armed[0] = False
+                        await flushed(expected_written)
+                        check_fatal()
+            # termination, part 2: once everything is flushed nothing may keep the loop busy
+            link.plan_armed[0] = not avoid
+            if not state["failed"]:
+                await flushed(expected_written)
+                check_fatal()
+            pos = len(world.trace)
+            idle = await loop_goes_idle(world, loop)
+            check_fatal()
+            zero = link.zero_sends_since(pos)
+            if not idle or zero > 2:
+                raise Violation(
+                    "spin",
+                    f"the event loop does not go idle after send_packet returned and the write buffer was flushed ({zero} zero-length sends while idle); {_describe(wl, extra)}",
+                    key=_spin_key(family, wl, state["current"], iov),
+                )
+            closer = loop.create_task(sender.aclose(), name="c04-closer")
+            finished, _ = await asyncio.wait([closer], timeout=100.0)
+            check_fatal()
+            if not finished:
+                closer.cancel()
+                raise Violation(
+                    "aclose-completes",
+                    f"aclose() after send_packet did not complete within 100 virtual seconds; {_describe(wl, extra)}",
+                    key=f"C04/{family}/aclose-hangs" + ("/empty-chunk" if _spin_key(family, wl, state["current"], iov).endswith("empty-chunk") else ""),
+                )
+            closer.result()
+        finally:
+            await aclose_forcefully(sender)
 
     try:
         with sim_sockets(link.net):
             run_async(world, main)
         link.settle()
-        _check_bytes(family, wl, state["done"], state["failed"], link, extra)
+        early = state["early_return"] and not state["failed"]
+        _check_bytes(family, wl, state["done"], state["failed"], link, extra, suffix="/returned-before-flush" if early else "")
     finally:
         _rekey_fatal(world, _spin_key(family, wl, state["current"], iov))
 
